@@ -7,8 +7,8 @@
 
    One general encoder [quote_x plus exc] (Codec.quote_byte except where [exc] names another spelling) with ONE
    round-trip / injectivity theorem from C14's unquote_quote_byte; the four copies are instances; Ident.code and
-   Cache.code are the same function through the obvious reading of a name identifier; the two decoders agree on
-   everything code() writes, and differ elsewhere (Cache.decode models int() for one digit only: witness). *)
+   Cache.code are the same function through the obvious reading of a name identifier; Cache.decode is defined through
+   Ident.decode (one decoder on every string; the one-digit decoder Cache.v had before is kept with a witness). *)
 From PV Require Import Lib.Base Model.Codec Proofs.Base64_lemmas Proofs.Url_lemmas.
 From PV Require Model.Redirect Model.Ident Model.Cache Proofs.Redirect_lemmas Proofs.Ident_lemmas Proofs.CacheKey_lemmas.
 Module RD := PV.Model.Redirect.
@@ -132,48 +132,43 @@ Qed.
 (* ------------------------------------------------------------------ *)
 (* ident.code: Model/Ident.v (C18) and Model/Cache.v (C19)             *)
 (* ------------------------------------------------------------------ *)
-(* Cache.v writes an absent / empty attribute as the empty string *)
-Definition od (o : option str) : str := match ID.tr o with Some v => v | None => [] end.
-Definition toC (n : ID.nameid) : CA.nameid :=
-  CA.Build_nameid (od (ID.n_nq n)) (od (ID.n_spnq n)) (od (ID.n_fmt n)) (od (ID.n_sppid n)) (od (ID.n_text n)).
-
-Lemma enc_part_code_field i o : ID.enc_part i o = CA.code_field i (od o).
-Proof.
-  unfold ID.enc_part, CA.code_field, od. destruct (ID.tr o) as [v|] eqn:E; [|reflexivity].
-  apply IDL.tr_some in E as [_ Hne]. destruct v as [|c v]; [congruence|].
-  unfold ID.digit. now rewrite ident_cache_quote_same.
-Qed.
+(* Cache.v writes an absent / empty attribute as the empty string: Model/Cache.v of_ident *)
+Definition od (o : option str) : str := CA.od o.
+Definition toC (n : ID.nameid) : CA.nameid := CA.of_ident n.
 
 Theorem code_same n : CA.code (toC n) = ID.code n.
-Proof.
-  unfold CA.code, ID.code, CA.code_parts, ID.enc_parts, toC. cbn [CA.nq CA.spnq CA.fmt CA.spid CA.txt].
-  now rewrite !enc_part_code_field.
-Qed.
+Proof. exact (CAL.code_of_ident n). Qed.
 
 Lemma od_bytes o : IDL.obytes o -> Forall byte (od o).
 Proof.
-  intros H. unfold od. destruct (ID.tr o) as [v|] eqn:E; [|constructor]. exact (IDL.tr_bytes _ _ H E).
+  intros H. unfold od, CA.od. destruct (ID.tr o) as [v|] eqn:E; [|constructor]. exact (IDL.tr_bytes _ _ H E).
 Qed.
 
 Lemma toC_bytes n : IDL.wfb n -> CAL.byte_nid (toC n).
 Proof. intros (H1 & H2 & H3 & H4 & H5). repeat split; cbn; now apply od_bytes. Qed.
 
 Lemma toC_norm n : toC (ID.norm n) = toC n.
-Proof. unfold toC, ID.norm, od. cbn. now rewrite !IDL.tr_tr. Qed.
+Proof. exact (CAL.of_ident_norm n). Qed.
 
-(* on everything code() writes the two decoders return the same name identifier *)
+(* ident.decode: Model/Cache.v's decoder IS Model/Ident.v's, on EVERY string (it is defined through it) *)
+Theorem decode_same s :
+  CA.decode s = match ID.decode s with Ok m => Ok (toC m) | Err e => Err e end.
+Proof. reflexivity. Qed.
+
 Theorem decode_same_on_codes n : IDL.wfb n ->
   exists m, ID.decode (ID.code n) = Ok m /\ CA.decode (ID.code n) = Ok (toC m).
 Proof.
   intros H. exists (ID.norm n). split; [exact (IDL.decode_code n H)|].
-  rewrite <- code_same, toC_norm. apply CAL.decode_code. now apply toC_bytes.
+  rewrite decode_same, (IDL.decode_code n H). reflexivity.
 Qed.
 
-(* off the image of code() they differ: int("-1") is a valid (negative) index for ident.decode - the library sets
-   the text attribute - while Model/Cache.v treats every index that is not one digit as the swallowed failure *)
-Theorem decode_disagreement_witness :
-  ID.decode (s2l "-1=a") = Ok (ID.nid_t (s2l "a")) /\ CA.decode (s2l "-1=a") = Ok CA.no_nid /\
-  ID.decode (s2l "04=a") = Ok (ID.nid_t (s2l "a")) /\ CA.decode (s2l "04=a") = Ok CA.no_nid.
+(* HISTORY: the decoder Model/Cache.v had before (CA.decode_one_digit: int() for one digit only) agreed with ident.decode
+   on everything code() writes and differed off that image - int("-1"), int("04") are indexes for the library *)
+Theorem decode_one_digit_witness :
+  ID.decode (s2l "-1=a") = Ok (ID.nid_t (s2l "a")) /\ CA.decode_one_digit (s2l "-1=a") = Ok CA.no_nid /\
+  CA.decode (s2l "-1=a") = Ok (toC (ID.nid_t (s2l "a"))) /\
+  ID.decode (s2l "04=a") = Ok (ID.nid_t (s2l "a")) /\ CA.decode_one_digit (s2l "04=a") = Ok CA.no_nid /\
+  CA.decode (s2l "04=a") = Ok (toC (ID.nid_t (s2l "a"))).
 Proof. vm_compute. repeat split; reflexivity. Qed.
 
 Example code_example :
